@@ -51,4 +51,708 @@ theorem intRange_split (a m b : Int) (h1 : a ≤ m) (h2 : m ≤ b) : intRange a 
   simp only [Function.comp]
   omega
 
+/-! ### one step of the inner loop -/
+
+/-- the row the loop appends -/
+def mkRow (cs : List (Nat × Rat)) : Row := { coeffs := cs, rhs := 0, kind := .U }
+
+/-- offset `i` at step `t`: asset 2 has not been running long enough -/
+def zeroCond (r : LinkR) (t : Nat) (i : Int) : Bool := decide (i + (t : Int) < - r.ar)
+
+/-- offset `i` at step `t` points inside the horizon -/
+def inWindow (r : LinkR) (t : Nat) (i : Int) : Bool :=
+  decide (0 ≤ i + (t : Int)) && decide (i + (t : Int) < (r.T : Int))
+
+/-- labels of variable 2 at the step offset `i` points to -/
+def vars2 (M : List MapRow) (r : LinkR) (t : Nat) (i : Int) : List Nat := findVars M r.vn2 r.nd2 (i + (t : Int)).toNat
+
+theorem linkStep_ok {M : List MapRow} {r : LinkR} {aCols : Option Nat} {t : Nat} {I1 : List Nat} {st st' : LinkState} {i : Int}
+    (h : linkStep M r aCols t I1 st i = .ok st') :
+    (zeroCond r t i = true ∧ st' = { st with u := zeroAt I1 st.u }) ∨
+    (zeroCond r t i = false ∧ inWindow r t i = false ∧ st' = st) ∨
+    (zeroCond r t i = false ∧ inWindow r t i = true ∧ ∃ k cs, aCols = some k ∧ (∀ d ∈ I1, d < k) ∧
+      (∀ d ∈ vars2 M r t i, d < k) ∧ vars2 M r t i ≠ [] ∧ linkCoeffs st.u I1 (vars2 M r t i) = some cs ∧
+      st' = { st with rows := st.rows ++ [mkRow cs] }) := by
+  unfold linkStep at h
+  by_cases hz : i + (t : Int) < - r.ar
+  · left
+    simp only [hz, if_true] at h
+    split at h
+    · refine ⟨by simp [zeroCond, hz], ?_⟩
+      cases h; rfl
+    · cases h
+  · right
+    have hzc : zeroCond r t i = false := by simp [zeroCond, hz]
+    simp only [hz, if_false] at h
+    by_cases hw : i + (t : Int) < 0 ∨ (r.T : Int) ≤ i + (t : Int)
+    · left
+      simp only [hw, if_true] at h
+      refine ⟨hzc, ?_, by cases h; rfl⟩
+      simp only [inWindow, Bool.and_eq_false_iff, decide_eq_false_iff_not]
+      omega
+    · right
+      simp only [hw, if_false] at h
+      have hwc : inWindow r t i = true := by
+        simp only [inWindow, Bool.and_eq_true, decide_eq_true_eq]
+        omega
+      refine ⟨hzc, hwc, ?_⟩
+      split at h
+      · cases h
+      · rename_i hne
+        split at h
+        · cases h
+        · rename_i k
+          split at h
+          · cases h
+          · rename_i h1
+            split at h
+            · cases h
+            · split at h
+              · cases h
+              · rename_i h3
+                split at h
+                · cases h
+                · rename_i cs hcs
+                  refine ⟨k, cs, rfl, ?_, ?_, ?_, hcs, by cases h; rfl⟩
+                  · simpa using h1
+                  · simpa [vars2] using h3
+                  · intro he
+                    apply hne
+                    simp [vars2] at he
+                    simp [he]
+
+/-! ### the inner loop -/
+
+theorem linkInner_append (M : List MapRow) (r : LinkR) (aCols : Option Nat) (t : Nat) (I1 : List Nat) (st : LinkState)
+    (xs ys : List Int) :
+    linkInner M r aCols t I1 st (xs ++ ys) =
+      match linkInner M r aCols t I1 st xs with
+      | .ok st1 => linkInner M r aCols t I1 st1 ys
+      | .error e => .error e := by
+  induction xs generalizing st with
+  | nil => simp [linkInner]
+  | cons x xs ih =>
+    simp only [List.cons_append, linkInner]
+    cases h : linkStep M r aCols t I1 st x with
+    | ok st1 => simp [ih]
+    | error e => simp
+
+/-- rows generated at step `t` (labels `I1`) for the offsets `is`, with the bounds `u` -/
+def rowsOf (M : List MapRow) (r : LinkR) (u : List Rat) (t : Nat) (I1 : List Nat) (is : List Int) : List Row :=
+  is.filterMap fun i =>
+    if !zeroCond r t i && inWindow r t i then (linkCoeffs u I1 (vars2 M r t i)).map mkRow else none
+
+theorem rowsOf_append (M : List MapRow) (r : LinkR) (u : List Rat) (t : Nat) (I1 : List Nat) (xs ys : List Int) :
+    rowsOf M r u t I1 (xs ++ ys) = rowsOf M r u t I1 xs ++ rowsOf M r u t I1 ys := by
+  simp [rowsOf, List.filterMap_append]
+
+theorem rowsOf_zero (M : List MapRow) (r : LinkR) (u : List Rat) (t : Nat) (I1 : List Nat) (is : List Int)
+    (hz : ∀ i ∈ is, zeroCond r t i = true) : rowsOf M r u t I1 is = [] := by
+  unfold rowsOf
+  rw [List.filterMap_eq_nil_iff]
+  intro i hi
+  simp [hz i hi]
+
+theorem exists_split (a b c : Int) (hab : a ≤ b) :
+    ∃ m, a ≤ m ∧ m ≤ b ∧ (∀ i, a ≤ i → i < m → i < c) ∧ (∀ i, m ≤ i → i < b → ¬ i < c) := by
+  by_cases h1 : c ≤ a
+  · exact ⟨a, by omega, by omega, by intros; omega, by intros; omega⟩
+  · by_cases h2 : b ≤ c
+    · exact ⟨b, by omega, by omega, by intros; omega, by intros; omega⟩
+    · exact ⟨c, by omega, by omega, by intros; omega, by intros; omega⟩
+
+/-- the bounds after the inner loop (any list of offsets) -/
+theorem inner_u {M : List MapRow} {r : LinkR} {aCols : Option Nat} {t : Nat} {I1 : List Nat} (is : List Int) :
+    ∀ {st st' : LinkState}, linkInner M r aCols t I1 st is = .ok st' →
+      st'.u = if is.any (zeroCond r t) then zeroAt I1 st.u else st.u := by
+  induction is with
+  | nil => intro st st' h; simp only [linkInner] at h; cases h; simp
+  | cons i is ih =>
+    intro st st' h
+    simp only [linkInner] at h
+    cases hs : linkStep M r aCols t I1 st i with
+    | error e => rw [hs] at h; cases h
+    | ok st1 =>
+      rw [hs] at h
+      have h2 := ih h
+      rcases linkStep_ok hs with ⟨hz, rfl⟩ | ⟨hz, _, rfl⟩ | ⟨hz, _, k, cs, _, _, _, _, _, rfl⟩
+      · simp only [List.any_cons, hz, Bool.true_or, if_true]
+        rw [h2]
+        simp only [zeroAt_idem]
+        split <;> rfl
+      · simpa [List.any_cons, hz] using h2
+      · simpa [List.any_cons, hz] using h2
+
+theorem inner_zero_rows {M : List MapRow} {r : LinkR} {aCols : Option Nat} {t : Nat} {I1 : List Nat} (is : List Int) :
+    ∀ {st st' : LinkState}, (∀ i ∈ is, zeroCond r t i = true) → linkInner M r aCols t I1 st is = .ok st' →
+      st'.rows = st.rows := by
+  induction is with
+  | nil => intro st st' _ h; simp only [linkInner] at h; cases h; rfl
+  | cons i is ih =>
+    intro st st' hz h
+    simp only [linkInner] at h
+    cases hs : linkStep M r aCols t I1 st i with
+    | error e => rw [hs] at h; cases h
+    | ok st1 =>
+      rw [hs] at h
+      have h2 := ih (fun j hj => hz j (by simp [hj])) h
+      have hzi := hz i (by simp)
+      rcases linkStep_ok hs with ⟨_, rfl⟩ | ⟨hz', _, _⟩ | ⟨hz', _⟩
+      · simpa using h2
+      · rw [hzi] at hz'; cases hz'
+      · rw [hzi] at hz'; cases hz'
+
+theorem inner_rows {M : List MapRow} {r : LinkR} {aCols : Option Nat} {t : Nat} {I1 : List Nat} (is : List Int) :
+    ∀ {st st' : LinkState}, (∀ i ∈ is, zeroCond r t i = false) → linkInner M r aCols t I1 st is = .ok st' →
+      st'.u = st.u ∧ st'.rows = st.rows ++ rowsOf M r st.u t I1 is := by
+  induction is with
+  | nil => intro st st' _ h; simp only [linkInner] at h; cases h; simp [rowsOf]
+  | cons i is ih =>
+    intro st st' hz h
+    simp only [linkInner] at h
+    cases hs : linkStep M r aCols t I1 st i with
+    | error e => rw [hs] at h; cases h
+    | ok st1 =>
+      rw [hs] at h
+      have h2 := ih (fun j hj => hz j (by simp [hj])) h
+      have hzi := hz i (by simp)
+      rcases linkStep_ok hs with ⟨hz', _⟩ | ⟨_, hw, rfl⟩ | ⟨_, hw, k, cs, _, _, _, _, hcs, rfl⟩
+      · rw [hzi] at hz'; cases hz'
+      · refine ⟨h2.1, ?_⟩
+        rw [h2.2]
+        simp only [rowsOf, List.filterMap_cons, hzi, hw]
+        simp
+      · refine ⟨h2.1, ?_⟩
+        rw [h2.2]
+        simp only [rowsOf, List.filterMap_cons, hzi, hw, hcs]
+        simp
+
+/-- does the inner loop at step `t` set the bound to zero? -/
+def zeroT (r : LinkR) (t : Nat) : Bool := r.offsets.any (zeroCond r t)
+
+/-- closed form of the inner loop over `np.arange(-time_back, time_forward + 1)`: the offsets that zero the bound come first,
+    so every row of step `t` is generated with the bounds as they are AFTER the inner loop -/
+theorem inner_closed {M : List MapRow} {r : LinkR} {aCols : Option Nat} {t : Nat} {I1 : List Nat} {st st' : LinkState}
+    (h : linkInner M r aCols t I1 st r.offsets = .ok st') :
+    st'.u = (if zeroT r t then zeroAt I1 st.u else st.u) ∧
+      st'.rows = st.rows ++ rowsOf M r st'.u t I1 r.offsets := by
+  refine ⟨inner_u r.offsets h, ?_⟩
+  by_cases hab : r.tf + 1 < - r.tb
+  · have he : r.offsets = [] := by
+      unfold LinkR.offsets intRange
+      have : (r.tf + 1 - -r.tb).toNat = 0 := by omega
+      rw [this]; rfl
+    rw [he] at h ⊢
+    simp only [linkInner] at h
+    cases h
+    simp [rowsOf]
+  · -- split the offsets at the first one that does not zero the bound
+    obtain ⟨m, hm1, hm2, hlo, hhi⟩ := exists_split (- r.tb) (r.tf + 1) (- r.ar - (t : Int)) (by omega)
+    have hsplit : r.offsets = intRange (- r.tb) m ++ intRange m (r.tf + 1) := intRange_split _ _ _ hm1 hm2
+    have hzs : ∀ i ∈ intRange (- r.tb) m, zeroCond r t i = true := by
+      intro i hi
+      rw [mem_intRange] at hi
+      simp only [zeroCond, decide_eq_true_eq]
+      have := hlo i hi.1 hi.2
+      omega
+    have hrs : ∀ i ∈ intRange m (r.tf + 1), zeroCond r t i = false := by
+      intro i hi
+      rw [mem_intRange] at hi
+      simp only [zeroCond, decide_eq_false_iff_not]
+      have := hhi i hi.1 hi.2
+      omega
+    rw [hsplit, linkInner_append] at h
+    cases h1 : linkInner M r aCols t I1 st (intRange (- r.tb) m) with
+    | error e => rw [h1] at h; cases h
+    | ok st1 =>
+      rw [h1] at h
+      simp only at h
+      have e1 := inner_zero_rows _ hzs h1
+      have e2 := inner_rows _ hrs h
+      rw [hsplit, rowsOf_append, rowsOf_zero _ _ _ _ _ _ hzs, List.nil_append, e2.2, e1, e2.1]
+
+/-! ### the outer loop: closed form -/
+
+/-- labels of variable 1 at step `t` -/
+def vars1 (M : List MapRow) (r : LinkR) (t : Nat) : List Nat := findVars M r.vn1 r.nd1 t
+
+/-- what step `t` does to the upper bounds -/
+def uStep (M : List MapRow) (r : LinkR) (u : List Rat) (t : Nat) : List Rat :=
+  if zeroT r t then zeroAt (vars1 M r t) u else u
+
+/-- the rows the loop over the steps `ts` adds, starting with the bounds `u` -/
+def newRows (M : List MapRow) (r : LinkR) : List Rat → List Nat → List Row
+  | _, [] => []
+  | u, t :: ts =>
+    rowsOf M r (uStep M r u t) t (vars1 M r t) r.offsets ++ newRows M r (uStep M r u t) ts
+
+theorem outer_closed {M : List MapRow} {r : LinkR} {aCols : Option Nat} (ts : List Nat) :
+    ∀ {st st' : LinkState}, linkOuter M r aCols st ts = .ok st' →
+      st'.u = ts.foldl (uStep M r) st.u ∧ st'.rows = st.rows ++ newRows M r st.u ts ∧
+        ∀ t ∈ ts, vars1 M r t ≠ [] := by
+  induction ts with
+  | nil => intro st st' h; simp only [linkOuter] at h; cases h; simp [newRows]
+  | cons t ts ih =>
+    intro st st' h
+    simp only [linkOuter] at h
+    split at h
+    · cases h
+    · rename_i hne
+      cases hi : linkInner M r aCols t (findVars M r.vn1 r.nd1 t) st r.offsets with
+      | error e => rw [hi] at h; cases h
+      | ok st1 =>
+        rw [hi] at h
+        simp only at h
+        obtain ⟨e1, e2⟩ := inner_closed hi
+        obtain ⟨f1, f2, f3⟩ := ih h
+        have hu : st1.u = uStep M r st.u t := by rw [e1]; rfl
+        refine ⟨?_, ?_, ?_⟩
+        · rw [f1, List.foldl_cons, hu]
+        · rw [f2, e2, newRows, hu, List.append_assoc]; rfl
+        · intro t' ht'
+          rcases List.mem_cons.1 ht' with rfl | h'
+          · intro he; apply hne; simp [vars1] at he; simp [he]
+          · exact f3 t' h'
+
+/-- the linked problem in closed form -/
+theorem buildLinked_ok {S L : AssetProblem} {r : LinkR} {aCols : Option Nat} (h : buildLinked S r aCols = .ok L) :
+    L = { S with u := (List.range r.T).foldl (uStep S.mapping r) S.u,
+                 rows := S.rows ++ newRows S.mapping r S.u (List.range r.T) } ∧
+      ∀ t < r.T, vars1 S.mapping r t ≠ [] := by
+  unfold buildLinked at h
+  cases ho : linkOuter S.mapping r aCols { u := S.u, rows := [] } (List.range r.T) with
+  | error e => rw [ho] at h; cases h
+  | ok st =>
+    rw [ho] at h
+    simp only at h
+    obtain ⟨f1, f2, f3⟩ := outer_closed _ ho
+    cases h
+    refine ⟨?_, fun t ht => f3 t (List.mem_range.2 ht)⟩
+    simp only at f1 f2
+    rw [f1, f2, List.nil_append]
+
+/-! ### the bounds after the loop -/
+
+/-- is variable `j` set to zero by one of the steps `ts`? -/
+def zeroedIn (M : List MapRow) (r : LinkR) (ts : List Nat) (j : Nat) : Bool :=
+  ts.any fun t => zeroT r t && (vars1 M r t).contains j
+
+theorem uStep_length (M : List MapRow) (r : LinkR) (u : List Rat) (t : Nat) : (uStep M r u t).length = u.length := by
+  unfold uStep; split <;> simp [zeroAt_length]
+
+theorem foldl_uStep_length (M : List MapRow) (r : LinkR) (ts : List Nat) :
+    ∀ u : List Rat, (ts.foldl (uStep M r) u).length = u.length := by
+  induction ts with
+  | nil => intro u; rfl
+  | cons t ts ih => intro u; rw [List.foldl_cons, ih, uStep_length]
+
+theorem uStep_getD (M : List MapRow) (r : LinkR) (u : List Rat) (t j : Nat) :
+    (uStep M r u t).getD j 0 = if zeroT r t && (vars1 M r t).contains j then 0 else u.getD j 0 := by
+  unfold uStep
+  by_cases hz : zeroT r t = true
+  · simp only [hz, if_true, Bool.true_and]
+    exact zeroAt_getD _ _ _
+  · simp [hz]
+
+theorem zeroedIn_cons (M : List MapRow) (r : LinkR) (t : Nat) (ts : List Nat) (j : Nat) :
+    zeroedIn M r (t :: ts) j = (zeroT r t && (vars1 M r t).contains j || zeroedIn M r ts j) := rfl
+
+theorem foldl_uStep_getD (M : List MapRow) (r : LinkR) (j : Nat) (ts : List Nat) :
+    ∀ u : List Rat, (ts.foldl (uStep M r) u).getD j 0 = if zeroedIn M r ts j then 0 else u.getD j 0 := by
+  induction ts with
+  | nil => intro u; simp [zeroedIn]
+  | cons t ts ih =>
+    intro u
+    rw [List.foldl_cons, ih, uStep_getD, zeroedIn_cons]
+    cases zeroedIn M r ts j <;> cases (zeroT r t && (vars1 M r t).contains j) <;> simp
+
+theorem zeroedIn_iff (M : List MapRow) (r : LinkR) (ts : List Nat) (j : Nat) :
+    zeroedIn M r ts j = true ↔ ∃ t ∈ ts, zeroT r t = true ∧ j ∈ vars1 M r t := by
+  simp [zeroedIn, List.any_eq_true]
+
+theorem zeroedIn_append_left (M : List MapRow) (r : LinkR) (xs ys : List Nat) (j : Nat)
+    (h : zeroedIn M r xs j = true) : zeroedIn M r (xs ++ ys) j = true := by
+  rw [zeroedIn_iff] at h ⊢
+  obtain ⟨t, ht, h1, h2⟩ := h
+  exact ⟨t, List.mem_append_left _ ht, h1, h2⟩
+
+theorem zeroT_iff (r : LinkR) (t : Nat) : zeroT r t = true ↔ ∃ i ∈ r.offsets, i + (t : Int) < - r.ar := by
+  simp [zeroT, List.any_eq_true, zeroCond]
+
+theorem mem_offsets (r : LinkR) (i : Int) : i ∈ r.offsets ↔ - r.tb ≤ i ∧ i ≤ r.tf := by
+  unfold LinkR.offsets
+  rw [mem_intRange]
+  omega
+
+/-! ### the new rows -/
+
+theorem mem_rowsOf {M : List MapRow} {r : LinkR} {u : List Rat} {t : Nat} {I1 : List Nat} {is : List Int} {row : Row} :
+    row ∈ rowsOf M r u t I1 is ↔ ∃ i ∈ is, zeroCond r t i = false ∧ inWindow r t i = true ∧
+      ∃ cs, linkCoeffs u I1 (vars2 M r t i) = some cs ∧ row = mkRow cs := by
+  unfold rowsOf
+  rw [List.mem_filterMap]
+  constructor
+  · rintro ⟨i, hi, h⟩
+    by_cases hc : (!zeroCond r t i && inWindow r t i) = true
+    · rw [if_pos hc] at h
+      simp only [Bool.and_eq_true, Bool.not_eq_true'] at hc
+      cases hl : linkCoeffs u I1 (vars2 M r t i) with
+      | none => rw [hl] at h; cases h
+      | some cs =>
+        rw [hl] at h
+        simp only [Option.map_some, Option.some.injEq] at h
+        exact ⟨i, hi, hc.1, hc.2, cs, hl, h.symm⟩
+    · rw [if_neg hc] at h; cases h
+  · rintro ⟨i, hi, hz, hw, cs, hcs, rfl⟩
+    refine ⟨i, hi, ?_⟩
+    simp [hz, hw, hcs]
+
+theorem mem_newRows {M : List MapRow} {r : LinkR} {row : Row} (ts : List Nat) :
+    ∀ u : List Rat, row ∈ newRows M r u ts ↔ ∃ pre t post, ts = pre ++ t :: post ∧
+      row ∈ rowsOf M r ((pre ++ [t]).foldl (uStep M r) u) t (vars1 M r t) r.offsets := by
+  induction ts with
+  | nil => intro u; simp [newRows]
+  | cons t ts ih =>
+    intro u
+    simp only [newRows, List.mem_append]
+    constructor
+    · rintro (h | h)
+      · exact ⟨[], t, ts, rfl, by simpa using h⟩
+      · obtain ⟨pre, t', post, rfl, h'⟩ := (ih _).1 h
+        exact ⟨t :: pre, t', post, rfl, by simpa using h'⟩
+    · rintro ⟨pre, t', post, he, h⟩
+      cases pre with
+      | nil =>
+        simp only [List.nil_append, List.cons.injEq] at he
+        obtain ⟨rfl, rfl⟩ := he
+        left; simpa using h
+      | cons p pre =>
+        simp only [List.cons_append, List.cons.injEq] at he
+        obtain ⟨rfl, rfl⟩ := he
+        right
+        exact (ih _).2 ⟨pre, t', post, rfl, by simpa using h⟩
+
+/-! ### look-ups and coefficients -/
+
+theorem mem_findVars {M : List MapRow} {vn : String} {nd : Option String} {t j : Nat} :
+    j ∈ findVars M vn nd t ↔ ∃ m ∈ M, m.var = j ∧ m.varName = vn ∧ m.step = t ∧ m.node = nd := by
+  unfold findVars
+  simp only [List.mem_map, List.mem_filter, Bool.and_eq_true, beq_iff_eq]
+  constructor
+  · rintro ⟨m, ⟨hm, ⟨h1, h2⟩, h3⟩, rfl⟩
+    exact ⟨m, hm, rfl, h1, h2, h3⟩
+  · rintro ⟨m, hm, rfl, h1, h2, h3⟩
+    exact ⟨m, ⟨hm, ⟨h1, h2⟩, h3⟩, rfl⟩
+
+theorem mem_setCoeff {cs : List (Nat × Rat)} {j : Nat} {v : Rat} {p : Nat × Rat} (h : p ∈ setCoeff cs j v) :
+    p ∈ cs ∨ p.1 = j := by
+  unfold setCoeff at h
+  rcases List.mem_append.1 h with h | h
+  · exact Or.inl (List.mem_filter.1 h).1
+  · right; simp at h; rw [h]
+
+theorem mem_foldl_setCoeff {α : Type} (f : α → Nat) (g : α → Rat) (l : List α) {p : Nat × Rat} :
+    ∀ cs0 : List (Nat × Rat), p ∈ l.foldl (fun cs x => setCoeff cs (f x) (g x)) cs0 → p ∈ cs0 ∨ ∃ x ∈ l, p.1 = f x := by
+  induction l with
+  | nil => intro cs0 h; exact Or.inl h
+  | cons y l ih =>
+    intro cs0 h
+    rw [List.foldl_cons] at h
+    rcases ih _ h with h | ⟨x, hx, e⟩
+    · rcases mem_setCoeff h with h | h
+      · exact Or.inl h
+      · exact Or.inr ⟨y, by simp, h⟩
+    · exact Or.inr ⟨x, by simp [hx], e⟩
+
+theorem linkCoeffs_idx {u : List Rat} {I1 I2 : List Nat} {cs : List (Nat × Rat)} (h : linkCoeffs u I1 I2 = some cs) :
+    ∀ p ∈ cs, p.1 ∈ I1 ∨ p.1 ∈ I2 := by
+  intro p hp
+  have ones : ∀ q ∈ I1.foldl (fun cs d => setCoeff cs d 1) [], q.1 ∈ I1 := by
+    intro q hq
+    rcases mem_foldl_setCoeff (fun d => d) (fun _ => (1 : Rat)) I1 [] hq with h | ⟨x, hx, e⟩
+    · cases h
+    · rw [e]; exact hx
+  unfold linkCoeffs at h
+  simp only at h
+  split at h
+  · cases h
+    rcases mem_foldl_setCoeff (fun j => j) (fun _ => - u.getD (I1.headD 0) 0) I2 _ hp with h | ⟨x, hx, e⟩
+    · exact Or.inl (ones p h)
+    · right; rw [e]; exact hx
+  · split at h
+    · cases h
+      rcases mem_foldl_setCoeff (fun q : Nat × Nat => q.1) (fun q => - u.getD q.2 0) (I2.zip I1) _ hp with h | ⟨x, hx, e⟩
+      · exact Or.inl (ones p h)
+      · right; rw [e]; exact (List.of_mem_zip hx).1
+    · cases h
+
+theorem linkCoeffs_single (u : List Rat) (a b : Nat) (hab : a ≠ b) :
+    linkCoeffs u [a] [b] = some [(a, 1), (b, - u.getD a 0)] := by
+  simp [linkCoeffs, setCoeff, hab]
+
+theorem sat_mkRow_pair (a b : Nat) (c : Rat) (x : Vec) : (mkRow [(a, 1), (b, - c)]).Sat x ↔ x a ≤ c * x b := by
+  simp only [Row.Sat, mkRow, Row.eval, List.map_cons, List.map_nil, List.sum_cons, List.sum_nil]
+  constructor <;> intro h <;> grind
+
+/-! ### invariants of the loop -/
+
+theorem inner_inv {M : List MapRow} {r : LinkR} {aCols : Option Nat} {t : Nat} {I1 : List Nat} (P : LinkState → Prop)
+    (hstep : ∀ st i st', P st → linkStep M r aCols t I1 st i = .ok st' → P st') (is : List Int) :
+    ∀ {st st' : LinkState}, P st → linkInner M r aCols t I1 st is = .ok st' → P st' := by
+  induction is with
+  | nil => intro st st' hp h; simp only [linkInner] at h; cases h; exact hp
+  | cons i is ih =>
+    intro st st' hp h
+    simp only [linkInner] at h
+    cases hs : linkStep M r aCols t I1 st i with
+    | error e => rw [hs] at h; cases h
+    | ok st1 => rw [hs] at h; exact ih (hstep _ _ _ hp hs) h
+
+theorem outer_inv {M : List MapRow} {r : LinkR} {aCols : Option Nat} (P : LinkState → Prop)
+    (hstep : ∀ t I1 st i st', P st → linkStep M r aCols t I1 st i = .ok st' → P st') (ts : List Nat) :
+    ∀ {st st' : LinkState}, P st → linkOuter M r aCols st ts = .ok st' → P st' := by
+  induction ts with
+  | nil => intro st st' hp h; simp only [linkOuter] at h; cases h; exact hp
+  | cons t ts ih =>
+    intro st st' hp h
+    simp only [linkOuter] at h
+    split at h
+    · cases h
+    · cases hi : linkInner M r aCols t (findVars M r.vn1 r.nd1 t) st r.offsets with
+      | error e => rw [hi] at h; cases h
+      | ok st1 =>
+        rw [hi] at h
+        exact ih (inner_inv P (hstep t _) _ hp hi) h
+
+/-- every new row stays inside the columns of the matrix -/
+theorem newRows_cols {S L : AssetProblem} {r : LinkR} {aCols : Option Nat} (h : buildLinked S r aCols = .ok L) :
+    ∀ row ∈ newRows S.mapping r S.u (List.range r.T), ∀ p ∈ row.coeffs, ∃ k, aCols = some k ∧ p.1 < k := by
+  unfold buildLinked at h
+  cases ho : linkOuter S.mapping r aCols { u := S.u, rows := [] } (List.range r.T) with
+  | error e => rw [ho] at h; cases h
+  | ok st =>
+    obtain ⟨_, f2, _⟩ := outer_closed _ ho
+    simp only [List.nil_append] at f2
+    rw [← f2]
+    refine outer_inv (M := S.mapping) (r := r) (aCols := aCols)
+      (fun st => ∀ row ∈ st.rows, ∀ p ∈ row.coeffs, ∃ k, aCols = some k ∧ p.1 < k) ?_ _ ?_ ho
+    · intro t I1 st i st' hp hs
+      rcases linkStep_ok hs with ⟨_, rfl⟩ | ⟨_, _, rfl⟩ | ⟨_, _, k, cs, hk, h1, h2, _, hcs, rfl⟩
+      · exact hp
+      · exact hp
+      · intro row hrow p hpm
+        rcases List.mem_append.1 hrow with hr | hr
+        · exact hp row hr p hpm
+        · simp only [List.mem_singleton] at hr
+          subst hr
+          refine ⟨k, hk, ?_⟩
+          rcases linkCoeffs_idx hcs p hpm with h | h
+          · exact h1 _ h
+          · exact h2 _ h
+    · intro row hrow; cases hrow
+
+/-! ### success under unique look-ups -/
+
+theorem linkStep_succeeds {M : List MapRow} {r : LinkR} {k : Nat} {t : Nat} {a : Nat} {st : LinkState} {i : Int}
+    (ha : a < k) (hau : a < st.u.length) (hb : ∀ s < r.T, ∃ b, findVars M r.vn2 r.nd2 s = [b] ∧ b < k) :
+    ∃ st', linkStep M r (some k) t [a] st i = .ok st' ∧ st'.u.length = st.u.length := by
+  unfold linkStep
+  by_cases hz : i + (t : Int) < - r.ar
+  · simp only [hz, if_true]
+    refine ⟨_, by simp [hau]; rfl, by simp [zeroAt_length]⟩
+  · simp only [hz, if_false]
+    by_cases hw : i + (t : Int) < 0 ∨ (r.T : Int) ≤ i + (t : Int)
+    · simp only [hw, if_true]
+      exact ⟨st, rfl, rfl⟩
+    · simp only [hw, if_false]
+      obtain ⟨b, hb1, hb2⟩ := hb (i + (t : Int)).toNat (by omega)
+      simp only [hb1]
+      refine ⟨{ st with rows := st.rows ++ [mkRow (((fun cs j => setCoeff cs j (- st.u.getD a 0)) (setCoeff [] a 1)) b)] }, ?_, rfl⟩
+      simp [ha, hau, hb2, linkCoeffs, mkRow]
+
+theorem inner_succeeds {M : List MapRow} {r : LinkR} {k : Nat} {t : Nat} {a : Nat} (ha : a < k)
+    (hb : ∀ s < r.T, ∃ b, findVars M r.vn2 r.nd2 s = [b] ∧ b < k) (is : List Int) :
+    ∀ st : LinkState, a < st.u.length → ∃ st', linkInner M r (some k) t [a] st is = .ok st' ∧ st'.u.length = st.u.length := by
+  induction is with
+  | nil => intro st _; exact ⟨st, rfl, rfl⟩
+  | cons i is ih =>
+    intro st hau
+    obtain ⟨st1, h1, l1⟩ := linkStep_succeeds (t := t) (i := i) ha hau hb
+    obtain ⟨st2, h2, l2⟩ := ih st1 (by omega)
+    refine ⟨st2, ?_, by omega⟩
+    simp only [linkInner, h1, h2]
+
+theorem outer_succeeds {M : List MapRow} {r : LinkR} {k n : Nat}
+    (ha : ∀ t < r.T, ∃ a, findVars M r.vn1 r.nd1 t = [a] ∧ a < k ∧ a < n)
+    (hb : ∀ s < r.T, ∃ b, findVars M r.vn2 r.nd2 s = [b] ∧ b < k) (ts : List Nat) (hts : ∀ t ∈ ts, t < r.T) :
+    ∀ st : LinkState, st.u.length = n → ∃ st', linkOuter M r (some k) st ts = .ok st' := by
+  induction ts with
+  | nil => intro st _; exact ⟨st, rfl⟩
+  | cons t ts ih =>
+    intro st hn
+    obtain ⟨a, ha1, ha2, ha3⟩ := ha t (hts t (by simp))
+    obtain ⟨st1, h1, l1⟩ := inner_succeeds (t := t) ha2 hb r.offsets st (by omega)
+    obtain ⟨st2, h2⟩ := ih (fun t' ht' => hts t' (by simp [ht'])) st1 (by omega)
+    refine ⟨st2, ?_⟩
+    simp only [linkOuter, ha1]
+    simp [h1, h2]
+
+/-! ### conversion of the durations -/
+
+theorem convertInt_rescale {k : Rat} {u u' : Nat} (hu : (u' : Rat) * k = (u : Rat)) (v : Rat) (s : Nat) :
+    convertInt (v * k) u' s = convertInt v u s := by
+  unfold convertInt
+  have h : v * k * (u' : Rat) = v * (u : Rat) := by rw [← hu]; grind
+  rw [h]
+
+/-- the conversion of the CHP model is this one, cut at zero -/
+theorem convertSteps_eq (v : Rat) (u s : Nat) : convertSteps v u s = (convertInt v u s).toNat := rfl
+
+/-- the durations of a link re-expressed in another main time unit (`k` new units per old unit) -/
+def rescaleLink (k : Rat) (p : LinkP) : LinkP :=
+  { p with timeBack := p.timeBack * k, timeForward := p.timeForward * k, alreadyRunning := p.alreadyRunning * k }
+
+theorem resolveLink_rescale {k : Rat} {u u' : Nat} (hu : (u' : Rat) * k = (u : Rat)) (name : String) (ext : List String)
+    (p : LinkP) (s T : Nat) : resolveLink name ext (rescaleLink k p) u' s T = resolveLink name ext p u s T := by
+  simp only [resolveLink, rescaleLink, convertInt_rescale hu]
+
+/-! ### what the result says (unique look-ups) -/
+
+section meaning
+variable {S : AssetProblem} {r : LinkR} {a b : Nat → Nat}
+
+/-- the bounds after the loop -/
+def finalU (S : AssetProblem) (r : LinkR) : List Rat := (List.range r.T).foldl (uStep S.mapping r) S.u
+
+theorem finalU_getD (S : AssetProblem) (r : LinkR) (j : Nat) :
+    (finalU S r).getD j 0 = if zeroedIn S.mapping r (List.range r.T) j then 0 else S.u.getD j 0 :=
+  foldl_uStep_getD _ _ _ _ _
+
+theorem zeroed_of_zeroT (ha : ∀ t < r.T, findVars S.mapping r.vn1 r.nd1 t = [a t]) {t : Nat} (ht : t < r.T)
+    (hz : zeroT r t = true) : zeroedIn S.mapping r (List.range r.T) (a t) = true := by
+  rw [zeroedIn_iff]
+  exact ⟨t, List.mem_range.2 ht, hz, by simp [vars1, ha t ht]⟩
+
+theorem zeroed_elim (ha : ∀ t < r.T, findVars S.mapping r.vn1 r.nd1 t = [a t]) {j : Nat}
+    (hz : zeroedIn S.mapping r (List.range r.T) j = true) : ∃ t < r.T, zeroT r t = true ∧ j = a t := by
+  rw [zeroedIn_iff] at hz
+  obtain ⟨t, ht, h1, h2⟩ := hz
+  have ht' := List.mem_range.1 ht
+  refine ⟨t, ht', h1, ?_⟩
+  simpa [vars1, ha t ht'] using h2
+
+/-- bounds of the linked problem = bounds of the structured problem and `x(a_t) = 0` at the zeroed steps -/
+theorem bounds_iff (ha : ∀ t < r.T, findVars S.mapping r.vn1 r.nd1 t = [a t]) (hn : ∀ t < r.T, a t < S.l.length)
+    (hl : ∀ t < r.T, 0 ≤ S.l.getD (a t) 0) (hu : ∀ t < r.T, 0 ≤ S.u.getD (a t) 0) (x : Vec) :
+    InBounds S.l (finalU S r) x ↔ InBounds S.l S.u x ∧ ∀ t < r.T, zeroT r t = true → x (a t) = 0 := by
+  constructor
+  · intro h
+    refine ⟨?_, ?_⟩
+    · intro j hj
+      have hb := h j hj
+      refine ⟨hb.1, ?_⟩
+      rw [finalU_getD] at hb
+      by_cases hz : zeroedIn S.mapping r (List.range r.T) j = true
+      · obtain ⟨t, ht, _, rfl⟩ := zeroed_elim ha hz
+        rw [if_pos hz] at hb
+        have := hu t ht
+        grind
+      · rw [if_neg hz] at hb; exact hb.2
+    · intro t ht hz
+      have hb := h (a t) (hn t ht)
+      rw [finalU_getD, if_pos (zeroed_of_zeroT ha ht hz)] at hb
+      have := hl t ht
+      grind
+  · rintro ⟨h, h0⟩ j hj
+    have hb := h j hj
+    refine ⟨hb.1, ?_⟩
+    rw [finalU_getD]
+    by_cases hz : zeroedIn S.mapping r (List.range r.T) j = true
+    · obtain ⟨t, ht, hzt, rfl⟩ := zeroed_elim ha hz
+      rw [if_pos hz, h0 t ht hzt]
+      exact Rat.le_refl
+    · rw [if_neg hz]; exact hb.2
+
+/-- a row of the closed form, for unique look-ups -/
+theorem newRow_form (ha : ∀ t < r.T, findVars S.mapping r.vn1 r.nd1 t = [a t])
+    (hb : ∀ s < r.T, findVars S.mapping r.vn2 r.nd2 s = [b s]) (hab : ∀ t < r.T, ∀ s < r.T, a t ≠ b s) {row : Row} :
+    row ∈ newRows S.mapping r S.u (List.range r.T) ↔
+      ∃ (pre : List Nat) (t : Nat) (post : List Nat), List.range r.T = pre ++ t :: post ∧ ∃ i ∈ r.offsets, ¬ (i + (t : Int) < - r.ar) ∧ 0 ≤ i + (t : Int) ∧
+        i + (t : Int) < (r.T : Int) ∧
+        row = mkRow [(a t, 1), (b (i + (t : Int)).toNat, - ((pre ++ [t]).foldl (uStep S.mapping r) S.u).getD (a t) 0)] := by
+  rw [mem_newRows]
+  constructor
+  · rintro ⟨pre, t, post, he, hrow⟩
+    have ht : t < r.T := List.mem_range.1 (by rw [he]; simp)
+    obtain ⟨i, hi, hz, hw, cs, hcs, rfl⟩ := mem_rowsOf.1 hrow
+    simp only [zeroCond, decide_eq_false_iff_not] at hz
+    simp only [inWindow, Bool.and_eq_true, decide_eq_true_eq] at hw
+    have hs : (i + (t : Int)).toNat < r.T := by omega
+    rw [vars1, ha t ht, vars2, hb _ hs, linkCoeffs_single _ _ _ (hab t ht _ hs)] at hcs
+    cases hcs
+    exact ⟨pre, t, post, he, i, hi, hz, hw.1, hw.2, rfl⟩
+  · rintro ⟨pre, t, post, he, i, hi, hz, hw1, hw2, rfl⟩
+    have ht : t < r.T := List.mem_range.1 (by rw [he]; simp)
+    have hs : (i + (t : Int)).toNat < r.T := by omega
+    refine ⟨pre, t, post, he, mem_rowsOf.2 ⟨i, hi, ?_, ?_, _, ?_, rfl⟩⟩
+    · simp [zeroCond, hz]
+    · simp only [inWindow, Bool.and_eq_true, decide_eq_true_eq]; exact ⟨hw1, hw2⟩
+    · rw [vars1, ha t ht, vars2, hb _ hs, linkCoeffs_single _ _ _ (hab t ht _ hs)]
+
+/-- the rows force `x(b_{t+i}) = 1` wherever `x(a_t) > 0` (no hypothesis on the bounds) -/
+theorem rows_forward (ha : ∀ t < r.T, findVars S.mapping r.vn1 r.nd1 t = [a t])
+    (hb : ∀ s < r.T, findVars S.mapping r.vn2 r.nd2 s = [b s]) (hab : ∀ t < r.T, ∀ s < r.T, a t ≠ b s) (x : Vec)
+    (hbin : ∀ s < r.T, x (b s) = 0 ∨ x (b s) = 1)
+    (hrows : ∀ row ∈ newRows S.mapping r S.u (List.range r.T), row.Sat x) :
+    ∀ t < r.T, ∀ i ∈ r.offsets, ¬ (i + (t : Int) < - r.ar) → 0 ≤ i + (t : Int) → i + (t : Int) < (r.T : Int) →
+      0 < x (a t) → x (b (i + (t : Int)).toNat) = 1 := by
+  intro t ht i hi hz hw1 hw2 hpos
+  obtain ⟨pre, post, he⟩ := List.append_of_mem (List.mem_range.2 ht)
+  have hrow := hrows _ ((newRow_form ha hb hab).2 ⟨pre, t, post, he, i, hi, hz, hw1, hw2, rfl⟩)
+  rw [sat_mkRow_pair] at hrow
+  have hs : (i + (t : Int)).toNat < r.T := by omega
+  rcases hbin _ hs with h0 | h1
+  · rw [h0] at hrow; grind
+  · exact h1
+
+/-- conversely the implication makes the rows hold, for a point inside the structured bounds that vanishes at the zeroed steps -/
+theorem rows_backward (ha : ∀ t < r.T, findVars S.mapping r.vn1 r.nd1 t = [a t])
+    (hb : ∀ s < r.T, findVars S.mapping r.vn2 r.nd2 s = [b s]) (hab : ∀ t < r.T, ∀ s < r.T, a t ≠ b s)
+    (hn : ∀ t < r.T, a t < S.l.length) (hl : ∀ t < r.T, 0 ≤ S.l.getD (a t) 0) (hu : ∀ t < r.T, 0 ≤ S.u.getD (a t) 0)
+    (x : Vec) (hbin : ∀ s < r.T, x (b s) = 0 ∨ x (b s) = 1) (hx : InBounds S.l S.u x)
+    (h0 : ∀ t < r.T, zeroT r t = true → x (a t) = 0)
+    (himp : ∀ t < r.T, ∀ i ∈ r.offsets, ¬ (i + (t : Int) < - r.ar) → 0 ≤ i + (t : Int) → i + (t : Int) < (r.T : Int) →
+      0 < x (a t) → x (b (i + (t : Int)).toNat) = 1) :
+    ∀ row ∈ newRows S.mapping r S.u (List.range r.T), row.Sat x := by
+  intro row hrow
+  obtain ⟨pre, t, post, he, i, hi, hz, hw1, hw2, rfl⟩ := (newRow_form ha hb hab).1 hrow
+  have ht : t < r.T := List.mem_range.1 (by rw [he]; simp)
+  have hs : (i + (t : Int)).toNat < r.T := by omega
+  rw [sat_mkRow_pair, foldl_uStep_getD]
+  have hbt := hx (a t) (hn t ht)
+  have hlt := hl t ht
+  have hut := hu t ht
+  by_cases hpos : 0 < x (a t)
+  · rw [himp t ht i hi hz hw1 hw2 hpos]
+    by_cases hzd : zeroedIn S.mapping r (pre ++ [t]) (a t) = true
+    · exfalso
+      have hz2 : zeroedIn S.mapping r (List.range r.T) (a t) = true := by
+        have : List.range r.T = (pre ++ [t]) ++ post := by rw [he]; simp
+        rw [this]; exact zeroedIn_append_left _ _ _ _ _ hzd
+      obtain ⟨t', ht', hzt', e⟩ := zeroed_elim ha hz2
+      have := h0 t' ht' hzt'
+      rw [← e] at this
+      grind
+    · rw [if_neg hzd]; grind
+  · have hx0 : x (a t) = 0 := by grind
+    rw [hx0]
+    rcases hbin _ hs with hb0 | hb1
+    · rw [hb0]; grind
+    · rw [hb1]
+      by_cases hzd : zeroedIn S.mapping r (pre ++ [t]) (a t) = true
+      · rw [if_pos hzd]; grind
+      · rw [if_neg hzd]; grind
+
+end meaning
+
 end EAO.Linked
